@@ -1545,6 +1545,438 @@ def gen_cli_validate():
             + "; ".join(f'"{s}"%string' for s in sorted(set(sites))) + "].\n")
 
 
+def gen_config():
+    """BitBirch.__init__ / set_merge / the merge_criterion and tolerance property setters / the tolerance
+    getter (bblean/bitbirch.py): the merge-configuration logic as a decision tree over a closed set of tests
+    (`X is None`, `X is not None`, isinstance(X, MergeAcceptFunction | str), hasattr(<merge fn>, "tolerance"),
+    `not C`) with leaves in the vocabulary of Model/Config.v (get_merge_accept_fn, crit_tolerance,
+    crit_set_tolerance, mkCfg).  The order of the tests, which value is passed where and the constants
+    (default tolerance, default criterion name) come from the source.  Values are typed (f64, optf, int,
+    optint, critarg, crit, cname, optcrit, none) and tests refine them (flow typing); the three shapes of
+    the criterion argument (None / str / MergeAcceptFunction) are the constructors of `critarg`.
+    ValueError is `None`.  In set_merge a raise (or a call that may raise) after an assignment to self.* is
+    refused: the model's "None = nothing changed" would be wrong.  Any other statement, condition or
+    expression is a failed translation."""
+    import collections
+    V = collections.namedtuple("V", "term ty")
+    NONE = V("None", "none")
+
+    class NoMerge(Exception):
+        """an if-statement cannot be turned into per-variable conditional values"""
+
+    tree = ast.parse((REPO / "bblean/bitbirch.py").read_text())
+    cls = find_func(tree, "BitBirch")
+    if not isinstance(cls, ast.ClassDef):
+        raise Unsupported("BitBirch is not a class")
+
+    def method(name, deco):
+        """the unique method of BitBirch called `name` whose decorator list unparses to `deco`"""
+        hits = [n for n in cls.body if isinstance(n, ast.FunctionDef) and n.name == name
+                and [ast.unparse(d) for d in n.decorator_list] == deco]
+        if len(hits) != 1:
+            raise Unsupported(f"BitBirch.{name} with decorators {deco}: {len(hits)} definitions")
+        return hits[0]
+
+    def signature(fn, want_pos, want_kw):
+        """parameters (name -> annotation text) must be exactly the expected ones; defaults returned"""
+        a = fn.args
+        if a.vararg or a.kwarg or a.posonlyargs:
+            raise Unsupported(f"{fn.name}: *args/**kwargs/positional-only parameters")
+        pos = {p.arg: (ast.unparse(p.annotation) if p.annotation else None) for p in a.args}
+        kw = {p.arg: (ast.unparse(p.annotation) if p.annotation else None) for p in a.kwonlyargs}
+        if pos != want_pos or kw != want_kw:
+            raise Unsupported(f"{fn.name}: parameters {pos} / {kw}, expected {want_pos} / {want_kw}")
+        dpos = dict(zip([p.arg for p in a.args][len(a.args) - len(a.defaults):], a.defaults))
+        dkw = {p.arg: d for p, d in zip(a.kwonlyargs, a.kw_defaults) if d is not None}
+        return {k: ast.unparse(v) for k, v in {**dpos, **dkw}.items()}
+
+    # ---- criterion names: string -> cname constructor, read off _merges.get_merge_accept_fn ----
+    CLASS2NAME = {"RadiusMerge": "NRadius", "DiameterMerge": "NDiameter", "ToleranceMerge": "NTolLegacy",
+                  "ToleranceDiameterMerge": "NTolDiameter", "ToleranceRadiusMerge": "NTolRadius",
+                  "NeverMerge": "NNever"}
+    mtree = ast.parse((REPO / "bblean/_merges.py").read_text())
+    gm = find_func(mtree, "get_merge_accept_fn")
+    if [p.arg for p in gm.args.args] != ["merge_criterion", "tolerance"]:
+        raise Unsupported("get_merge_accept_fn: parameters")
+    names = {}
+    node = [s for s in gm.body if not (isinstance(s, ast.Expr) and isinstance(s.value, ast.Constant))]
+    if len(node) != 2 or not isinstance(node[0], ast.If) or not isinstance(node[1], ast.Raise):
+        raise Unsupported("get_merge_accept_fn: not an if-chain on the name followed by a raise")
+    cur = node[0]
+    while True:
+        t = cur.test
+        if not (isinstance(t, ast.Compare) and len(t.ops) == 1 and isinstance(t.ops[0], ast.Eq)
+                and ast.unparse(t.left) == "merge_criterion" and isinstance(t.comparators[0], ast.Constant)
+                and isinstance(t.comparators[0].value, str) and len(cur.body) == 1
+                and isinstance(cur.body[0], ast.Return) and isinstance(cur.body[0].value, ast.Call)
+                and ast.unparse(cur.body[0].value.func) in CLASS2NAME):
+            fail(cur, "get_merge_accept_fn: branch is not `name == <str>: return <MergeClass>(...)`")
+        names.setdefault(t.comparators[0].value, CLASS2NAME[ast.unparse(cur.body[0].value.func)])
+        if not cur.orelse:
+            break
+        if len(cur.orelse) != 1 or not isinstance(cur.orelse[0], ast.If):
+            fail(cur, "get_merge_accept_fn: else-branch is not a further test of the name")
+        cur = cur.orelse[0]
+
+    fresh = [0]
+
+    def var(stem):
+        fresh[0] += 1
+        return f"{stem}{fresh[0]}"
+
+    RESERVED = {"self", "_global_merge_accept", "MergeAcceptFunction", "get_merge_accept_fn", "str",
+                "isinstance", "hasattr", "ValueError", "_BITBIRCH_INSTANCES"}
+    FN, THR, BF, STOL, HAS, DIRTY = ("self._merge_accept_fn", "self.threshold", "self.branching_factor",
+                                     "self.tolerance", "$hasattr", "$dirty")
+    FIELD_TY = {FN: "crit", THR: "f64", BF: "int"}
+
+    def lift(v, ty, node):
+        """present value v at the (wider) type ty"""
+        if v.ty == ty:
+            return v.term
+        if ty in ("optf", "optint", "optcrit"):
+            base = {"optf": "f64", "optint": "int", "optcrit": "crit"}[ty]
+            if v.ty == base:
+                return f"(Some {v.term})"
+            if v.ty == "none":
+                return "None"
+        fail(node, f"config: a value of type {v.ty} where {ty} is needed")
+
+    def join(vals, node):
+        tys = {v.ty for v in vals}
+        if len(tys) == 1:
+            return tys.pop()
+        for base, opt in (("f64", "optf"), ("int", "optint")):
+            if tys <= {base, opt, "none"}:
+                return opt
+        raise NoMerge()           # e.g. str / object / None: keep the case split instead
+
+    def match(scrut, arms):
+        one = f"(match {scrut} with " + " | ".join(f"{p} => {t}" for p, t in arms) + " end)"
+        if len(one) <= 100 and "\n" not in one:
+            return one
+        ind = lambda t: t.replace("\n", "\n    ")
+        return f"(match {scrut} with\n" + "".join(f"| {p} =>\n    {ind(t)}\n" for p, t in arms) + "end)"
+
+    def ev(e, env):
+        """value of a (pure, non-raising) expression"""
+        if isinstance(e, ast.Constant):
+            if e.value is None:
+                return NONE
+            if isinstance(e.value, float):
+                return V(cfloat(e.value), "f64")
+            if isinstance(e.value, str):
+                return V(names.get(e.value, "NUnknown"), "cname")
+            fail(e, "config: constant")
+        if isinstance(e, ast.Name):
+            if e.id in env and e.id not in (HAS, DIRTY):
+                return env[e.id]
+            fail(e, "config: unknown or unbound name")
+        if isinstance(e, ast.Attribute):
+            s = ast.unparse(e)
+            if s == STOL:                       # the property: its getter applied to the current merge function
+                if STOL in env:
+                    return env[STOL]
+                return V(f"(tolerance_of {field(FN, env, e).term})", "optf")
+            if s in FIELD_TY:
+                return field(s, env, e)
+            if e.attr == "tolerance":           # <merge function>.tolerance: only under a hasattr guard
+                o = ev(e.value, env)
+                h = env.get(HAS)
+                if o.ty == "crit" and h is not None and h[0] == o.term and h[1] is not None:
+                    return V(h[1], "f64")
+                fail(e, "config: .tolerance read without a hasattr(…, 'tolerance') guard on the same object")
+            fail(e, "config: attribute")
+        if isinstance(e, ast.IfExp):
+            scrut, cases = cond(e.test, env)
+            if scrut is None:
+                return ev(e.body if cases[0][2] else e.orelse, {**env, **cases[0][1]})
+            vals = [ev(e.body if truth else e.orelse, {**env, **ref}) for _, ref, truth in cases]
+            ty = join(vals, e)
+            return V(match(scrut, [(c[0], lift(v, ty, e)) for c, v in zip(cases, vals)]), ty)
+        fail(e, "config: expression outside the recognised shapes")
+
+    def field(key, env, node):
+        if key not in env:
+            fail(node, f"config: {key} is read before it is assigned")
+        return env[key]
+
+    def cond(e, env):
+        """-> (scrutinee | None, [(pattern, refinements, truth)]); scrutinee None = decided statically"""
+        if isinstance(e, ast.UnaryOp) and isinstance(e.op, ast.Not):
+            scrut, cases = cond(e.operand, env)
+            return scrut, [(p, r, not t) for p, r, t in cases]
+        if (isinstance(e, ast.Compare) and len(e.ops) == 1 and isinstance(e.ops[0], (ast.Is, ast.IsNot))
+                and isinstance(e.comparators[0], ast.Constant) and e.comparators[0].value is None):
+            is_none = isinstance(e.ops[0], ast.Is)
+            key = ast.unparse(e.left)
+            if not (isinstance(e.left, ast.Name) or key == STOL):
+                fail(e, "config: `is None` test of something else than a variable or self.tolerance")
+            v = ev(e.left, env)
+            if v.ty == "none":
+                return None, [(None, {}, is_none)]
+            if v.ty in ("f64", "int", "crit", "cname"):
+                return None, [(None, {}, not is_none)]
+            if v.ty in ("optf", "optint", "optcrit"):
+                base, stem = {"optf": ("f64", "t"), "optint": ("int", "k"), "optcrit": ("crit", "gc")}[v.ty]
+                x = var(stem)
+                return v.term, [(f"Some {x}", {key: V(x, base)}, not is_none), ("None", {key: NONE}, is_none)]
+            if v.ty == "critarg":
+                n, c = var("n"), var("c")
+                return v.term, [("ANone", {key: NONE}, is_none), (f"AName {n}", {key: V(n, "cname")}, not is_none),
+                                (f"AObj {c}", {key: V(c, "crit")}, not is_none)]
+            fail(e, f"config: `is None` test of a value of type {v.ty}")
+        if isinstance(e, ast.Call) and not e.keywords and len(e.args) == 2:
+            f = ast.unparse(e.func)
+            if f == "isinstance" and isinstance(e.args[0], ast.Name) and ast.unparse(e.args[1]) in ("MergeAcceptFunction", "str"):
+                want = {"MergeAcceptFunction": "crit", "str": "cname"}[ast.unparse(e.args[1])]
+                key = e.args[0].id
+                v = ev(e.args[0], env)
+                if v.ty in ("none", "crit", "cname"):
+                    return None, [(None, {}, v.ty == want)]
+                if v.ty == "critarg":
+                    n, c = var("n"), var("c")
+                    return v.term, [("ANone", {key: NONE}, False), (f"AName {n}", {key: V(n, "cname")}, want == "cname"),
+                                    (f"AObj {c}", {key: V(c, "crit")}, want == "crit")]
+                fail(e, f"config: isinstance test of a value of type {v.ty}")
+            if f == "hasattr" and isinstance(e.args[1], ast.Constant) and e.args[1].value == "tolerance":
+                o = ev(e.args[0], env)
+                if o.ty != "crit":
+                    fail(e, "config: hasattr(…, 'tolerance') of something that is not a merge function")
+                h = env.get(HAS)
+                if h is not None and h[0] == o.term:
+                    return None, [(None, {}, h[1] is not None)]
+                x = var("h")
+                return f"crit_tolerance {o.term}", [(f"Some {x}", {HAS: (o.term, x)}, True),
+                                                    ("None", {HAS: (o.term, None)}, False)]
+        fail(e, "config: condition outside the recognised shapes")
+
+    def gmaf_call(e):
+        return (isinstance(e, ast.Call) and ast.unparse(e.func) == "get_merge_accept_fn")
+
+    def desugar(st):
+        """x = A if C else B  ->  if C: x = A else: x = B   (so that the test refines what follows)"""
+        if isinstance(st, ast.Assign) and isinstance(st.value, ast.IfExp):
+            mk = lambda v: ast.copy_location(ast.Assign(targets=st.targets, value=v, lineno=st.lineno), st)
+            return ast.copy_location(ast.If(test=st.value.test, body=[mk(st.value.body)], orelse=[mk(st.value.orelse)]), st)
+        return st
+
+    def assign(st, env):
+        """a non-raising assignment -> (new env, assigned keys)"""
+        if len(st.targets) != 1:
+            fail(st, "config: multiple assignment targets")
+        tgt = st.targets[0]
+        key = ast.unparse(tgt)
+        new = dict(env)
+        if isinstance(tgt, ast.Name):
+            if key in RESERVED or key.startswith("$"):
+                fail(st, "config: assignment to a global / reserved name")
+            new[key] = ev(st.value, env)
+            return new, {key}
+        if key in FIELD_TY:
+            v = ev(st.value, env)
+            if v.ty != FIELD_TY[key]:
+                fail(st, f"config: {key} assigned a value of type {v.ty}, expected {FIELD_TY[key]}")
+            new[key] = v
+            new[DIRTY] = True
+            if key == FN:
+                new.pop(STOL, None), new.pop(HAS, None)
+            return new, {key, DIRTY} | ({STOL, HAS} if key == FN else set())
+        if key == FN + ".tolerance":
+            # in-place update of the merge function: only when it is known to have the attribute (else python
+            # would create it) and with a float
+            fnv, v, h = field(FN, env, st), ev(st.value, env), env.get(HAS)
+            if not (h is not None and h[0] == fnv.term and h[1] is not None):
+                fail(st, "config: tolerance of the merge function set without a hasattr guard")
+            if v.ty != "f64":
+                fail(st, f"config: tolerance of the merge function set to a value of type {v.ty}")
+            new[FN] = V(f"(crit_set_tolerance {fnv.term} {v.term})", "crit")
+            new[DIRTY] = True
+            new.pop(STOL, None), new.pop(HAS, None)
+            return new, {FN, DIRTY, STOL, HAS}
+        fail(st, "config: assignment target outside the recognised shapes")
+
+    def run_pure(stmts, env):
+        """straight-line assignments and mergeable ifs -> (env, assigned keys); NoMerge otherwise"""
+        done = set()
+        for st in stmts:
+            st = desugar(st)
+            if isinstance(st, ast.Pass):
+                continue
+            if isinstance(st, ast.Assign) and not gmaf_call(st.value):
+                env, ks = assign(st, env)
+            elif isinstance(st, ast.If):
+                env, ks = merge_if(st, env)
+            else:
+                raise NoMerge()
+            done |= ks
+        return env, done
+
+    def merge_if(st, env):
+        scrut, cases = cond(st.test, env)
+        if scrut is None:            # decided statically (no refinements)
+            return run_pure(st.body if cases[0][2] else st.orelse, env)
+        outs = [run_pure(st.body if truth else st.orelse, {**env, **ref}) for _, ref, truth in cases]
+        done = set().union(*(ks for _, ks in outs))
+        new = dict(env)
+        for k in sorted(done):
+            if k == DIRTY:
+                new[k] = any(o.get(DIRTY, False) for o, _ in outs)
+            elif k in (STOL, HAS):
+                new.pop(k, None)
+            else:
+                if any(k not in o for o, _ in outs):
+                    fail(st, f"config: {k} is bound on some paths only")
+                vals = [o[k] for o, _ in outs]
+                ty = join(vals, st)
+                new[k] = V(match(scrut, [(c[0], lift(v, ty, st)) for c, v in zip(cases, vals)]), ty)
+        return new, done
+
+    def block(stmts, env, mode, k):
+        """the result (a Gallina term) of running stmts in env and then the continuation k(env);
+        mode: 'ctor' (a raise after assignments to self is fine: no object), 'update' (it is not), 'getter'"""
+        if not stmts:
+            return k(env)
+        st, tl = desugar(stmts[0]), stmts[1:]
+        if isinstance(st, ast.Pass):
+            return block(tl, env, mode, k)
+        if isinstance(st, ast.Raise):
+            e = st.exc
+            if not (isinstance(e, ast.Call) and ast.unparse(e.func) == "ValueError" and st.cause is None):
+                fail(st, "config: raise of something else than ValueError(...)")
+            if mode == "getter":
+                fail(st, "config: raise in a getter")
+            if mode == "update" and env.get(DIRTY):
+                fail(st, "config: set_merge raises after it has already assigned to self (partial update)")
+            return "None"
+        if isinstance(st, ast.Return):
+            if mode != "getter" or st.value is None:
+                fail(st, "config: return")
+            return lift(ev(st.value, env), "optf", st)
+        if isinstance(st, ast.Assign) and gmaf_call(st.value):
+            c = st.value
+            if ast.unparse(st.targets[0]) != FN or len(st.targets) != 1 or c.keywords or len(c.args) != 2:
+                fail(st, "config: get_merge_accept_fn(...) is not called as self._merge_accept_fn = get_merge_accept_fn(name, tol)")
+            if mode == "getter" or (mode == "update" and env.get(DIRTY)):
+                fail(st, "config: get_merge_accept_fn may raise after self has already been assigned (partial update)")
+            a0, a1 = ev(c.args[0], env), ev(c.args[1], env)
+            if (a0.ty, a1.ty) != ("cname", "f64"):
+                fail(st, f"config: get_merge_accept_fn called with ({a0.ty}, {a1.ty}), expected (str, float)")
+            x = var("c")
+            new = {kk: v for kk, v in env.items() if kk not in (STOL, HAS)}
+            new[FN], new[DIRTY] = V(x, "crit"), True
+            return match(f"get_merge_accept_fn fexp {a0.term} {a1.term}",
+                         [(f"Some {x}", block(tl, new, mode, k)), ("None", "None")])
+        if isinstance(st, ast.Assign):
+            if mode == "getter" and not isinstance(st.targets[0], ast.Name):
+                fail(st, "config: a getter assigns to self")
+            env2, _ = assign(st, env)
+            return block(tl, env2, mode, k)
+        if isinstance(st, ast.If):
+            try:
+                env2, _ = merge_if(st, env)
+                if mode == "getter" and env2.get(DIRTY):
+                    fail(st, "config: a getter assigns to self")
+                return block(tl, env2, mode, k)
+            except NoMerge:
+                pass
+            scrut, cases = cond(st.test, env)
+            if scrut is None:
+                return block((st.body if cases[0][2] else st.orelse) + tl, {**env, **cases[0][1]}, mode, k)
+            return match(scrut, [(p, block((st.body if truth else st.orelse) + tl, {**env, **ref}, mode, k))
+                                 for p, ref, truth in cases])
+        fail(st, "config: statement outside the recognised shapes")
+
+    def body_of(fn):
+        b = list(fn.body)
+        if b and isinstance(b[0], ast.Expr) and isinstance(b[0].value, ast.Constant) and isinstance(b[0].value.value, str):
+            b = b[1:]
+        return b
+
+    def finish(env):
+        for key in FIELD_TY:
+            if key not in env or env[key].ty != FIELD_TY[key]:
+                raise Unsupported(f"config: {key} is not assigned on every path that returns")
+        return f"Some (mkCfg {env[FN].term} {env[THR].term} {env[BF].term})"
+
+    # ---- tolerance getter ----
+    getter = method("tolerance", ["property"])
+    signature(getter, {"self": None}, {})
+    get_t = block(body_of(getter), {FN: V("fn", "crit")}, "getter", lambda env: "None")
+
+    # ---- __init__ ----
+    init = method("__init__", [])
+    signature(init, {"self": None},
+              {"threshold": "float", "branching_factor": "int",
+               "merge_criterion": "str | MergeAcceptFunction | None", "tolerance": "float | None"})
+    SKIP = ["self._num_fitted_fps = 0", "self._root: _BFNode | None = None",
+            "self._dummy_leaf = _BFNode(branching_factor=2, n_features=0)",
+            "self._global_clustering_centroid_labels: NDArray[np.int64] | None = None",
+            "self._n_global_clusters = 0", "_BITBIRCH_INSTANCES.add(self)"]
+    ib = body_of(init)
+    rest = [ast.unparse(s) for s in ib[-len(SKIP):]]
+    if rest != SKIP:
+        raise Unsupported(f"__init__: the statements after the configuration part are {rest}, expected {SKIP}")
+    env0 = {"_global_merge_accept": V("g", "optcrit"), "threshold": V("thr", "f64"), "branching_factor": V("bf", "int"),
+            "merge_criterion": V("a", "critarg"), "tolerance": V("tol", "optf")}
+    ctor_t = block(ib[:-len(SKIP)], env0, "ctor", finish)
+
+    # ---- set_merge ----
+    sm = method("set_merge", [])
+    dfl = signature(sm, {"self": None, "criterion": "str | MergeAcceptFunction | None"},
+                    {"tolerance": "float | None", "threshold": "float | None", "branching_factor": "int | None"})
+    SM_PARAMS = ["criterion", "tolerance", "threshold", "branching_factor"]
+    if dfl != {p: "None" for p in SM_PARAMS}:
+        raise Unsupported(f"set_merge: defaults {dfl} are not all None")
+    env1 = {"_global_merge_accept": V("g", "optcrit"), "criterion": V("a", "critarg"), "tolerance": V("tol", "optf"),
+            "threshold": V("thr", "optf"), "branching_factor": V("bf", "optint"),
+            FN: V("(c_crit cf)", "crit"), THR: V("(c_thr cf)", "f64"), BF: V("(c_bf cf)", "int")}
+    sm_t = block(body_of(sm), env1, "update", finish)
+
+    # ---- property setters: exactly self.set_merge(<param>=value) ----
+    def setter(name, ann, vterm):
+        fn = method(name, [f"{name}.setter"])
+        signature(fn, {"self": None, "value": ann}, {})
+        b = body_of(fn)
+        if not (len(b) == 1 and isinstance(b[0], ast.Expr) and isinstance(b[0].value, ast.Call)
+                and ast.unparse(b[0].value.func) == "self.set_merge"):
+            raise Unsupported(f"{name}.setter: body is not a single call of self.set_merge")
+        c = b[0].value
+        given = dict(zip(["criterion"], c.args)) if len(c.args) <= 1 else fail(c, "setter: positional arguments")
+        for kw in c.keywords:
+            if kw.arg not in SM_PARAMS or kw.arg in given:
+                fail(c, "setter: keyword argument")
+            given[kw.arg] = kw.value
+        out = []
+        for p in SM_PARAMS:
+            if p not in given:
+                out.append("ANone" if p == "criterion" else "None")      # the default, checked to be None above
+            elif ast.unparse(given[p]) == "value" and (p, ann) in (("criterion", "str"), ("tolerance", "float")):
+                out.append(vterm)
+            else:
+                fail(c, f"setter: argument {p}")
+        return "set_merge fexp g cf " + " ".join(out)
+    crit_setter = setter("merge_criterion", "str", "(AName n)")
+    tol_setter = setter("tolerance", "float", "(Some t)")
+
+    hdr = ("(* GENERATED by /verif/translator/py2coq.py from bblean/bitbirch.py (BitBirch.__init__, set_merge, "
+           "merge_criterion/tolerance setters, tolerance getter) — do not edit. *)\n"
+           "From BB Require Import Model.Config.\nOpen Scope Z_scope.\n")
+    return (hdr
+            + "\n(* BitBirch.tolerance (getter), as a function of self._merge_accept_fn *)\n"
+            + f"Definition tolerance_of (fn : crit) : option float :=\n  {get_t}.\n"
+            + "Definition get_tolerance (cf : config) : option float := tolerance_of (c_crit cf).\n"
+            + "\n(* BitBirch.__init__; None = ValueError *)\n"
+            + "Definition ctor (fexp : float -> float) (g : option crit) (thr : float) (bf : Z) (a : critarg) "
+              "(tol : option float) : option config :=\n" + ctor_t + ".\n"
+            + "\n(* BitBirch.set_merge; None = ValueError raised before anything was assigned *)\n"
+            + "Definition set_merge (fexp : float -> float) (g : option crit) (cf : config) (a : critarg) "
+              "(tol thr : option float) (bf : option Z) : option config :=\n" + sm_t + ".\n"
+            + "\n(* property setters *)\n"
+            + f"Definition set_criterion_prop (fexp : float -> float) (g : option crit) (cf : config) (n : cname) :=\n  {crit_setter}.\n"
+            + f"Definition set_tolerance_prop (fexp : float -> float) (g : option crit) (cf : config) (t : float) :=\n  {tol_setter}.\n")
+
+
 def write_if_changed(path: Path, text: str):
     if path.exists() and path.read_text() == text:
         return False
@@ -1588,6 +2020,7 @@ def main():
     attempt("GMrDel", gen_mr_del)
     attempt("GCli", gen_cli)
     attempt("GCliVd", gen_cli_validate)
+    attempt("GConfig", gen_config)
     for k, v in status.items():
         print(f"translate {k}: {v}")
     return 0 if all(v == "ok" for v in status.values()) else 1
